@@ -24,7 +24,7 @@ WITH = ('std::thread::LocalKey::<T>::with', 'std::thread::LocalKey::<T>::try_wit
 READER_OK = ('std::ffi::CString::as_bytes', 'std::ffi::CString::as_bytes_with_nul', 'std::ffi::CString::as_ptr',
              'std::ffi::CString::as_c_str', 'core::ffi::CStr::as_ptr', 'core::ffi::CStr::to_bytes',
              'core::ffi::CStr::to_bytes_with_nul', '<std::ffi::CString as std::ops::Deref>::deref',
-             'core::slice::<impl [T]>::as_ptr')
+             'core::slice::<impl [T]>::as_ptr', 'std::ffi::CStr::as_ptr', 'std::ffi::CStr::to_bytes', 'std::ffi::CStr::to_bytes_with_nul')
 
 
 def table_entries(facts):
